@@ -197,12 +197,12 @@ const _: () = {
             let TextOrFiles::Files(files) = &mut self.text_ot_files else {
                 return Err((|| Error::ExpectedFile())())
             };
-            (files.len() == 1)
-                .then_some({
-                    let file = unsafe {files.pop().unwrap_unchecked()};
-                    visitor.visit_map(file.into_deserializer())?
-                })
-                .ok_or_else(Error::UnexpectedMultipleFiles)
+            /* not `then_some`: it would `pop` (unchecked) even when there is no file at all */
+            if files.len() != 1 {
+                return Err((|| Error::UnexpectedMultipleFiles())())
+            }
+            let file = unsafe {files.pop().unwrap_unchecked()};
+            visitor.visit_map(file.into_deserializer())
         }
 
         fn deserialize_seq<V>(self, visitor: V) -> Result<V::Value, Self::Error>
